@@ -245,12 +245,17 @@ TEXT = {
         "level_text": "Proved for the model of CompressFromGraph, for every graph and censor set: each walk only steps onto available nodes, removes them and "
                       "never repeats one (extendNode_ok, by functional induction on the well-founded walk); a built node merges distinct available "
                       "nodes including its seed (buildNode_ok); across the whole loop no input node is merged twice and no censored node is ever "
-                      "merged (C09_censored_excluded). The characterisation of the result as the maximal unbranched paths of the surviving "
-                      "adjacencies, no dangling extensions and payload folding are executable predicates evaluated on the crate's result "
-                      "(partition against the reconstructed k-mer table, components by label propagation).",
+                      "merged (C09_censored_excluded). Whenever compress_graph returns (C09_kmers_cover): one new node per path; every step of a "
+                      "path follows an edge of the pruned old graph, so the new node's k-mers are exactly the k-mers of the old nodes on its "
+                      "path in walking orientation and order (sequence_of_path over K-1 overlaps, C03); every non-censored node lies on exactly "
+                      "one path - the new graph's k-mers are exactly those of the non-censored nodes, each once; the payload is the reduction "
+                      "folded seed, left path, right path (buildNode_payload); fix_exts is exact for every validity filter (fixExts_exact, an "
+                      "invariant over the in-place sequential update) so no extension of the returned graph dangles (C09_no_dangling). "
+                      "Maximality of the paths (components of surviving good links), no-panic on valid graphs, idempotence and equality with "
+                      "direct compression are executable predicates on the crate's result (components by label propagation).",
         "design_ref": "DESIGN.md section 6, C09",
         "level_note": COMMON_NOTE + "Partial: C09_char and corollaries by execution.",
-        "technique": "Lean 4 proof (invariants of the availability-consuming walk) + differential correspondence with executable predicates",
+        "technique": "Lean 4 proof (invariants of the well-founded walk and of the in-place fix_exts fold, overlap algebra of merged sequences) + differential correspondence with executable predicates",
     },
     "C19": {
         "level_text": "Proved: on a graph with distinct node ends there is exactly one lookup function meeting the BoomHashMap contract (exact get among the "
